@@ -316,7 +316,19 @@ def run_one(cfg: dict, schedule: tuple, seed: int, depth: int, post: bool = Fals
             order = [*order, "E"]
         # history: NAT mapping renewed on another port (public node: re-bound), then an ordinary re-announcement to B
         remapped = {}
-        for name in {"none": (), "C": ("C",), "A": ("A",), "both": ("C", "A")}[cfg["remap"]]:
+        stash: list = []
+        if cfg["remap"] == "C-restart":
+            # C's process restarted (same key and LAN port) and its NAT mapping had expired: the new process comes out of
+            # another public port and, knowing nothing about B's abilities, registers with an OLD-style request.  B handles
+            # that request; A's request is the very next datagram B handles - C's follow-up traffic arrives afterwards.
+            old_addr, _ = w.remap("C")
+            w.request_intro("C", B_ADDR, False)
+            if w.inflight:
+                w.deliver(0)
+            remapped["C"] = (old_addr, w.public_address_of("C"))
+            stash = list(w.inflight)
+            del w.inflight[:]
+        for name in {"none": (), "C": ("C",), "A": ("A",), "both": ("C", "A"), "C-restart": ()}[cfg["remap"]]:
             old_addr, _ = w.remap(name)
             if w.box_of[name] is None:
                 w.ov[name]._my_estimated_lan = None      # a re-opened socket: the library derives its LAN estimate anew
@@ -392,6 +404,9 @@ def run_one(cfg: dict, schedule: tuple, seed: int, depth: int, post: bool = Fals
             viol.append(("request-not-sent", f"{cfg}: A's introduction request to B did not leave A ({len(w.inflight)} in flight)"))
             return {"viol": viol, "avail": [], "obs": ("request-not-sent",), "trace": []}
         w.deliver(0)                              # the request reaches B; B chooses, answers, asks for a puncture
+        if stash:
+            w.inflight[:0] = stash                # what C's re-registration had set in motion was sent earlier
+            stash = []
         x = w.introduced
         b_sent = [r for r in w.send_log[n_warm:] if r["from"] == "B"]
         if x is None:
@@ -592,6 +607,10 @@ def base_configs(thorough: bool) -> list[dict]:
             if thorough:
                 out.append(variant(*p, style, 2, "warm", "b-walked", start="snapshot"))
                 out.append(variant(*p, style, 1, "cold", "x-walked", start="snapshot", remap="C"))
+        # the introduced peer restarted behind a NAT that gave it a new port; A's request follows its re-registration at once
+        for p in (pairs if thorough else vary_c):
+            for ovl in ("discovery", "community"):
+                out.append(variant(*p, style, 1, "warm", "x-walked", remap="C-restart", overlay=ovl))
         # every node runs the DiscoveryCommunity (own old-style request handler, similarity requests in flight as well)
         for p in (pairs if thorough else same + [("diff", "port", "port"), ("diff", "addr", "full")]):
             for k in ((1, 3) if thorough else (1,)):
